@@ -85,7 +85,9 @@ def gen_hp(rng, name, kinds):
         hi = lo + rng.choice([0.5, 1.0, 3.0, 10.0, 1e3])
         return {"name": name, "kind": "float", "lo": lo, "hi": hi, "log": False}
     if kind == "float_log":
-        lo, hi = rng.choice([(3e-5, 7e3), (1e-4, 1.0), (1e-3, 1e3), (0.5, 2.0), (1e-6, 1e-1), (2.0, 7e3)])
+        # several lower bounds do not survive 10 ** log10(x) (3e-5, 3e-4, 2e-3, 7e-3 come back larger)
+        lo, hi = rng.choice([(3e-5, 7e3), (1e-4, 1.0), (1e-3, 1e3), (0.5, 2.0), (1e-6, 1e-1), (2.0, 7e3),
+                             (3e-4, 1.0), (2e-3, 5.0), (7e-3, 70.0)])
         return {"name": name, "kind": "float", "lo": lo, "hi": hi, "log": True}
     if kind == "cat_str":
         k = rng.randint(2, 5)
@@ -142,6 +144,9 @@ def gen_spec(rng, n_hps=None, kinds=None, constrained=False):
     spec = {"hps": hps, "conds": [], "forbs": []}
     if rng.random() < 0.3:
         spec["api"] = "bulk"  # HpProblem.add_hyperparameters / add_conditions
+    # construction history: which public accessors are read after each construction call
+    spec["reads"] = [rng.sample(["len", "names", "default", "str", "space"], rng.randint(1, 2)) if rng.random() < 0.4 else []
+                     for _ in range(n + 4)]
     if constrained and n >= 2:
         # conditions: child i depends on earlier-named hyperparameters (acyclic by construction)
         n_conds = rng.randint(0, 2)
@@ -270,6 +275,27 @@ def build_problem(spec):
     objs = {}
     bulk = spec.get("api") == "bulk"
     pending = []
+    reads = spec.get("reads") or []
+    step = [0]
+
+    def after_call():
+        """the public accessors read between two construction calls of this history"""
+        for acc in (reads[step[0]] if step[0] < len(reads) else []):
+            try:
+                if acc == "len":
+                    len(p)
+                elif acc == "names":
+                    p.hyperparameter_names
+                elif acc == "default":
+                    p.default_configuration
+                elif acc == "str":
+                    str(p)
+                elif acc == "space":
+                    list(p.space.keys())
+            except Exception:
+                pass  # an accessor that raises on a half-built problem is not this property's subject
+        step[0] += 1
+
     for h in spec["hps"]:
         if h["kind"] == "int":
             v = (h["lo"], h["hi"], "log-uniform") if h["log"] else (h["lo"], h["hi"])
@@ -295,8 +321,10 @@ def build_problem(spec):
             pending.append(objs[h["name"]])
         else:
             objs[h["name"]] = p.add_hyperparameter(v, h["name"], default_value=dflt)
+            after_call()
     if pending:
         p.add_hyperparameters(pending)
+        after_call()
 
     def cond(child, c):
         if c["op"] == "and":
@@ -319,11 +347,14 @@ def build_problem(spec):
 
     if bulk and spec["conds"]:
         p.add_conditions([cond(objs[c["child"]], c["cond"]) for c in spec["conds"]])
+        after_call()
     else:
         for c in spec["conds"]:
             p.add_condition(cond(objs[c["child"]], c["cond"]))
+            after_call()
     for f in spec["forbs"]:
         p.add_forbidden_clause(forb(f))
+        after_call()
     return p
 
 
@@ -332,7 +363,7 @@ def decl_of(spec, problem, surrogate=None, normalize=None):
     from the skopt space the repo builds for this surrogate."""
     from deephyper.hpo._problem import convert_to_skopt_space
 
-    names = list(problem.hyperparameter_names)
+    names = list(problem.space.keys())
     by_name = {h["name"]: h for h in spec["hps"]}
     if sorted(names) != sorted(by_name):
         raise HarnessError(f"problem names {names} != spec names {sorted(by_name)}")
@@ -510,7 +541,8 @@ def run_session(cell, spec, script):
     tmp = tempfile.mkdtemp(prefix="g5_")
     try:
         problem = build_problem(spec)
-        rec["names"] = list(problem.hyperparameter_names)
+        # the declaration's order is ConfigSpace's own; proposals are read BY NAME
+        rec["names"] = list(problem.space.keys())
         rec["problem"] = problem
         np.random.seed(cell["seed"] % (2**31))  # gaussian_mes draws from the global state (C07)
         try:
@@ -529,7 +561,7 @@ def run_session(cell, spec, script):
                     stage = f"ask({step['n']})#{k}"
                     X = search.ask(step["n"])
                     ask_draws = spy.take()
-                    props = [[x[nm] for nm in rec["names"]] for x in X]
+                    props = [[x.get(nm, f"<missing {nm}>") for nm in rec["names"]] for x in X]
                     extra = [sorted(set(x) - set(rec["names"])) for x in X]
                     rnd = {"n": step["n"], "askDraws": ask_draws, "X": props, "X_dicts_ok": not any(extra),
                            "hasTell": False, "results": [], "tellDraws": []}
@@ -549,7 +581,7 @@ def run_session(cell, spec, script):
                     backlog = later
                     stage = f"tell#{k}"
                     rnd["hasTell"] = True
-                    rnd["results"] = [([x[nm] for nm in rec["names"]], obj) for x, obj in now]
+                    rnd["results"] = [([x.get(nm, f"<missing {nm}>") for nm in rec["names"]], obj) for x, obj in now]
                     search.tell([Job(x, obj) for x, obj in now])
                     rnd["tellDraws"] = spy.take()
                     rnd["tellDone"] = True
@@ -583,7 +615,7 @@ def run_search_loop(cell, spec, max_evals, objs):
     out = {"seen": seen, "error": None, "not_accepted": None, "names": None}
     try:
         problem = build_problem(spec)
-        out["names"] = list(problem.hyperparameter_names)
+        out["names"] = list(problem.space.keys())
         np.random.seed(cell["seed"] % (2**31))
         try:
             search = make_search(cell, problem, tmp, run=run)
